@@ -88,6 +88,49 @@ class Opaque:
         return "<text>"
 
 
+_NOT_ITER = object()
+
+
+@dataclass
+class SliceView:
+    seq: list
+    lo: int
+    hi: int
+
+
+class Iter:
+    """an iterator of the standard library, materialised: the items not yet consumed; or lazy (`from_fn`): a closure answering Option"""
+
+    def __init__(self, items, pos: int = 0, lazy=None):
+        self.items, self.pos, self.lazy = items, pos, lazy
+
+    def next(self, machine):
+        if self.lazy is not None:
+            return machine.call_closure(self.lazy, [])
+        if self.pos < len(self.items):
+            self.pos += 1
+            return Enum("Some", [self.items[self.pos - 1]])
+        return Enum("None")
+
+    def rest(self):
+        if self.lazy is not None:
+            raise Unsupported("a lazy iterator cannot be reversed")
+        return self.items[self.pos:]
+
+    def drain(self, machine):
+        if self.lazy is None:
+            out, self.pos = self.items[self.pos:], len(self.items)
+            return out
+        out = []
+        while True:
+            nx = machine.call_closure(self.lazy, [])
+            if nx.variant == "None":
+                return out
+            out.append(nx.payload[0])
+            if len(out) > 100000:
+                raise Unsupported("unbounded iterator")
+
+
 @dataclass
 class FnItem:
     path: str
@@ -257,6 +300,16 @@ class Machine:
                 return self.run(cands[0], [])
             raise Unsupported(f"promoted constant `{s}` not found in MIR")
         m = re.fullmatch(r"(?:\w+::)*(?:constants|helpers|parsing)::(\w+)", s) or re.fullmatch(r"([A-Z][A-Z0-9_]+)", s)
+        if m and ("const:" + m.group(1)) in self.mir.fns:
+            # the constant item as rustc evaluates it: its MIR body (a literal table, or a call of a const fn of the crate)
+            cache = self.mir.__dict__.setdefault("_const_values", {})
+            if m.group(1) not in cache:
+                cache[m.group(1)] = self.run(self.mir.fns["const:" + m.group(1)], [])
+            return _copy.deepcopy(cache[m.group(1)])
+        if m:
+            one = re.search(rf"^const {re.escape(m.group(1))}: [^=]+ = const ([^;{{]+);$", self.mir.text, re.M)
+            if one:
+                return self.const(one.group(1))
         if m:
             if self._consts is None:
                 key = str(core.REPO)
@@ -554,11 +607,196 @@ class Machine:
             if a[0].variant != "Some":
                 raise Panic("unwrap of None")
             return a[0].payload[0]
+        m = re.search(r"Option::<.*>::(ok_or_else|ok_or|unwrap_or_default|unwrap_or_else|map_or|is_some_and|filter|or_else|or|zip|take|copied|cloned)(::<.*)?$", c)
+        if m:
+            o, k = deref(a[0]) if m.group(1) in ("take",) else a[0], m.group(1)
+            some = o.variant == "Some"
+            if k == "ok_or_else":
+                return Enum("Ok", list(o.payload)) if some else Enum("Err", [self.call_closure(a[1], [])])
+            if k == "ok_or":
+                return Enum("Ok", list(o.payload)) if some else Enum("Err", [a[1]])
+            if k == "unwrap_or_default":
+                if some:
+                    return o.payload[0]
+                ty = re.search(r"Option::<(\w+)>", c)
+                if ty and ty.group(1) in INT_BITS:
+                    return 0
+                if ty and ty.group(1) == "bool":
+                    return False
+                if ty and ty.group(1) == "f64":
+                    return 0.0
+                raise Unsupported(f"default of `{c[:50]}`")
+            if k == "unwrap_or_else":
+                return o.payload[0] if some else self.call_closure(a[1], [])
+            if k == "map_or":
+                return self.call_closure(a[2], [o.payload[0]]) if some else a[1]
+            if k == "is_some_and":
+                return bool(some and self.call_closure(a[1], [o.payload[0]]))
+            if k == "filter":
+                return o if some and self.call_closure(a[1], [Ref([o.payload[0]], 0)]) else Enum("None")
+            if k == "or_else":
+                return o if some else self.call_closure(a[1], [])
+            if k == "or":
+                return o if some else a[1]
+            if k in ("copied", "cloned"):
+                return Enum("Some", [deref(o.payload[0])]) if some else Enum("None")
+        m = re.search(r"Result::<.*>::(map_err|ok|is_ok|is_err|unwrap_or|map|and_then|unwrap_or_else)(::<.*)?$", c)
+        if m:
+            r_, k = a[0], m.group(1)
+            if k == "map_err":
+                return r_ if r_.variant == "Ok" else Enum("Err", [self.call_closure(a[1], [r_.payload[0]])])
+            if k == "ok":
+                return Enum("Some", list(r_.payload)) if r_.variant == "Ok" else Enum("None")
+            if k in ("is_ok", "is_err"):
+                return (deref(r_).variant == "Ok") == (k == "is_ok")
+            if k == "unwrap_or":
+                return r_.payload[0] if r_.variant == "Ok" else a[1]
+            if k == "map":
+                return Enum("Ok", [self.call_closure(a[1], [r_.payload[0]])]) if r_.variant == "Ok" else r_
+            if k == "and_then":
+                return self.call_closure(a[1], [r_.payload[0]]) if r_.variant == "Ok" else r_
+            if k == "unwrap_or_else":
+                return r_.payload[0] if r_.variant == "Ok" else self.call_closure(a[1], [r_.payload[0]])
+        m = re.search(r"^<(\w+) as Ord>::(max|min|clamp)$", c)
+        if m:
+            x = [self._num(v) for v in a]
+            return max(x) if m.group(2) == "max" else min(x) if m.group(2) == "min" else max(x[1], min(x[2], x[0]))
+        m = re.search(r"^<(.+) as Fn(?:Mut|Once)?<\(.*\)>>::call(?:_mut|_once)?$", c)
+        if m:
+            # calling a local closure (or a function item): the second argument is the tuple of its arguments
+            try:
+                clo = deref(a[0])
+            except KeyError:
+                clo = None                # a closure without captures is zero-sized: rustc never writes its local
+            if not isinstance(clo, (Closure, FnItem)):
+                mk = re.match(r"^(?:&(?:mut )?)?\{closure@([^}]*)\}$", m.group(1).strip())
+                clo = Closure(mk.group(1).strip(), []) if mk else clo
+            if isinstance(clo, (Closure, FnItem)):
+                return self.call_closure(clo, list(a[1]) if isinstance(a[1], list) else [a[1]])
+        m = re.search(r"^<(\w+) as Default>::default$", c)
+        if m:
+            if m.group(1) in INT_BITS:
+                return 0
+            if m.group(1) in ("bool", "f64", "String", "str"):
+                return {"bool": False, "f64": 0.0}.get(m.group(1), "")
+        if re.search(r"^<Option<.*> as Default>::default$", c):
+            return Enum("None")
+        r_it = self._iter_model(c, a)
+        if r_it is not _NOT_ITER:
+            return r_it
         if re.search(r"array::<impl \[.*\]>::map::<", c):
             return [self.call_closure(a[1], [x]) for x in a[0]]
         if re.search(r"impl bool>::then::<", c):
             return Enum("Some", [self.call_closure(a[1], [])]) if a[0] else Enum("None")
         raise Unsupported(f"call of `{callee[:70]}` (not modelled)")
+
+    def _iter_model(self, c: str, a: list[Any]):
+        """iterators of the standard library over ranges, arrays and slices, materialised as `Iter` (items, position); `from_fn` stays lazy"""
+        deref = lambda r: r.get() if isinstance(r, Ref) else r      # noqa: E731
+
+        def as_iter(v):
+            v = deref(v)
+            if isinstance(v, Iter):
+                return v
+            if isinstance(v, Struct) and v.name in ("Range", "RangeInclusive") or isinstance(v, Struct) and set(v.names) == {"start", "end"}:
+                lo, hi = v.vals[v.names.index("start")], v.vals[v.names.index("end")]
+                return Iter(list(range(lo, hi + (1 if v.name == "RangeInclusive" else 0))))
+            if isinstance(v, list):
+                return Iter(list(v))
+            raise Unsupported(f"iterator over {type(v).__name__}")
+        if re.search(r"iter::from_fn::<", c):
+            return Iter(None, 0, a[0])
+        m = re.search(r" as (?:Iterator|IntoIterator|DoubleEndedIterator)>::(\w+)(::<.*)?$", c) or re.search(r"(?:slice::<impl \[.*\]>|array::<impl \[.*\]>)::(iter|iter_mut|len|first|last|get|contains)(::<.*)?$", c)
+        if not m:
+            if re.search(r" as Index<std::ops::Range(From|To|Inclusive|Full)?<usize>>>::index$", c):
+                seq, r_ = deref(a[0]), a[1]
+                lo = r_.vals[r_.names.index("start")] if "start" in r_.names else 0
+                hi = (r_.vals[r_.names.index("end")] + (1 if r_.name == "RangeInclusive" else 0)) if "end" in r_.names else len(seq)
+                if not 0 <= lo <= hi <= len(seq):
+                    raise Panic("slice index out of range")
+                return Ref([SliceView(seq, lo, hi)], 0)
+            return _NOT_ITER
+        k = m.group(1)
+        if "Range<" in c and k in ("next", "into_iter", "find", "position", "any", "all") and not isinstance(deref(a[0]), Iter):
+            return _NOT_ITER           # plain ranges keep their struct model (a `for` loop mutates the range in place)
+        if k in ("into_iter", "iter", "iter_mut"):
+            v = deref(a[0])
+            if isinstance(v, SliceView):
+                return Iter([Ref(v.seq, i) for i in range(v.lo, v.hi)] if k != "into_iter" or True else None)
+            if isinstance(v, list) and k in ("iter", "iter_mut"):
+                return Iter([Ref(v, i) for i in range(len(v))])
+            return as_iter(a[0])
+        if k == "len":
+            v = deref(a[0])
+            return (v.hi - v.lo) if isinstance(v, SliceView) else len(v)
+        it = as_iter(a[0]) if k != "next" or not isinstance(deref(a[0]), Iter) else deref(a[0])
+        if k == "rev":
+            return Iter(list(reversed(it.rest())))
+        if k == "next":
+            return it.next(self)
+        if k in ("find", "position", "any", "all", "take_while", "skip_while", "filter", "map", "fold", "sum", "count", "max", "min", "last", "enumerate", "zip", "for_each", "copied", "cloned", "collect", "step_by", "skip", "take"):
+            if k == "map":
+                return Iter([self.call_closure(a[1], [x]) for x in it.drain(self)])
+            if k in ("copied", "cloned"):
+                return Iter([deref(x) for x in it.drain(self)])
+            if k == "enumerate":
+                return Iter([[i, x] for i, x in enumerate(it.drain(self))])
+            if k == "zip":
+                return Iter([[x, y] for x, y in zip(it.drain(self), as_iter(a[1]).drain(self))])
+            if k == "skip":
+                return Iter(it.drain(self)[a[1]:])
+            if k == "take":
+                return Iter(it.drain(self)[:a[1]])
+            if k == "step_by":
+                return Iter(it.drain(self)[::a[1]])
+            if k == "filter":
+                return Iter([x for x in it.drain(self) if self.call_closure(a[1], [Ref([x], 0)])])
+            if k == "take_while":
+                out = []
+                for x in it.drain(self):
+                    if not self.call_closure(a[1], [Ref([x], 0)]):
+                        break
+                    out.append(x)
+                return Iter(out)
+            if k == "fold":
+                acc = a[1]
+                while True:
+                    nx = it.next(self)
+                    if nx.variant == "None":
+                        return acc
+                    acc = self.call_closure(a[2], [acc, nx.payload[0]])
+            if k == "sum":
+                return sum(self._num(deref(x)) for x in it.drain(self))
+            if k == "count":
+                return len(it.drain(self))
+            if k in ("max", "min", "last"):
+                xs = it.drain(self)
+                if not xs:
+                    return Enum("None")
+                return Enum("Some", [xs[-1] if k == "last" else (max if k == "max" else min)(xs, key=lambda v: self._num(deref(v)))])
+            if k == "for_each":
+                for x in it.drain(self):
+                    self.call_closure(a[1], [x])
+                return Opaque()
+            if k == "collect":
+                return it.drain(self)
+            idx = 0
+            while True:
+                nx = it.next(self)
+                if nx.variant == "None":
+                    return {"find": Enum("None"), "position": Enum("None"), "any": False, "all": True}[k]
+                x = nx.payload[0]
+                hit = self.call_closure(a[1], [Ref([x], 0)] if k == "find" else [x])
+                if k == "find" and hit:
+                    return Enum("Some", [x])
+                if k == "position" and hit:
+                    return Enum("Some", [idx])
+                if k == "any" and hit:
+                    return True
+                if k == "all" and not hit:
+                    return False
+                idx += 1
+        return _NOT_ITER
 
     def call(self, callee: str, args: list[Any]):
         if self.ext:
@@ -570,6 +808,12 @@ class Machine:
         f = self.find(callee, len(args))
         if f is not None and ("::" not in callee or not callee.startswith(("core::", "std::", "<"))):
             return self.run(f, args)
+        m = re.match(r"^<(\w+)(?:<.*>)? as (\w+)(?:<.*>)?>::(\w+)$", callee)
+        if m and m.group(1) not in INT_BITS and m.group(1) not in ("str", "String", "char", "bool", "f64"):
+            # a trait method of a type of the crate (Default, a comparison, a conversion written or derived in the crate)
+            cands = [g for g in self._by_tail.get(m.group(3), []) if m.group(1) in g.sig and len(re.findall(r"_\d+: ", g.sig.split(") ->")[0])) == len(args)]
+            if len(cands) == 1:
+                return self.run(cands[0], args)
         return self.std(callee, args)
 
     # ---- execution -----------------------------------------------------------------------------------------------------
